@@ -316,6 +316,19 @@ def battery(pid, run, repo):
         res['benign'].append({'edit': name, 'silent': ok, 'new_violations': [(o.rule, o.key) for o in fresh][:5], 'errors': errors[:2]})
         if not ok:
             run.error('self-test: benign edit `%s` changes the verdict of %s: %s %s' % (name, pid, [(o.rule, o.key) for o in fresh][:3], errors[:1]))
+    # (c) behaviour-preserving refactorings kept as diffs under /verif/benign (each passes the 222 tests and the demonstrations of the
+    #     seeded changes it is derived from): no check may report anything on them
+    for bp in sorted(glob.glob(os.path.join(VERIF, 'benign', '*.diff'))):
+        try:
+            ov = apply_patch(open(bp).read(), read)
+        except ValueError as ex:
+            res['benign'].append({'edit': os.path.basename(bp), 'result': 'does not apply to the current tree (%s)' % ex})
+            continue
+        fresh, errors, r = run_check(pid, ov)
+        ok = not fresh and not errors
+        res['benign'].append({'edit': os.path.basename(bp), 'silent': ok, 'new_violations': [(o.rule, o.key) for o in fresh][:5], 'errors': errors[:2]})
+        if not ok:
+            run.error('self-test: benign refactoring %s changes the verdict of %s: %s %s' % (os.path.basename(bp), pid, [(o.rule, o.key) for o in fresh][:3], errors[:1]))
     restore_model()
     run.extra['selftest'] = res
     return res
